@@ -4,6 +4,7 @@ import (
 	"bytes"
 	"compress/gzip"
 	"compress/zlib"
+	"errors"
 	"io"
 	"net/http"
 	"strconv"
@@ -23,6 +24,8 @@ import (
 )
 
 var polling_log = log.NewLog("engine:polling")
+
+var errUndecodablePacket = errors.New("undecodable packet in payload")
 
 type polling struct {
 	Transport
@@ -214,7 +217,7 @@ func (p *polling) onDataRequest(ctx *types.HttpContext) {
 func (p *polling) OnData(data types.BufferInterface) {
 	polling_log.Debug(`received "%s"`, data)
 
-	packets, _ := p.decodePayload(data)
+	packets, err := p.decodePayload(data)
 	for _, packetData := range packets {
 		if packet.CLOSE == packetData.Type {
 			polling_log.Debug("got xhr close packet")
@@ -224,6 +227,14 @@ func (p *polling) OnData(data types.BufferInterface) {
 
 		p.OnPacket(packetData)
 	}
+	if err != nil {
+		// a packet of the payload could not be decoded and nothing behind it has
+		// been looked at. The packets behind it must not vanish silently from a
+		// session that stays open: as with an undecodable websocket frame, the
+		// session is told (it closes with a parse error).
+		polling_log.Debug("undecodable packet in payload: %v", err)
+		p.OnPacket(&packet.Packet{Type: packet.ERROR, Data: types.NewStringBufferString("parser error")})
+	}
 }
 
 // Decodes a payload. A revision 4 payload is split into its packets here:
@@ -231,7 +242,13 @@ func (p *polling) OnData(data types.BufferInterface) {
 // silently drops a packet of that size or more (and everything after it).
 func (p *polling) decodePayload(data types.BufferInterface) ([]*packet.Packet, error) {
 	if p.Protocol() != 4 {
-		return p.Parser().DecodePayload(data)
+		packets, err := p.Parser().DecodePayload(data)
+		if _, ok := data.(*types.StringBuffer); ok && err == nil && data.Len() > 0 {
+			// the revision 3 decoder gives up at a packet it cannot decode
+			// without saying so: what it has not consumed tells
+			err = errUndecodablePacket
+		}
+		return packets, err
 	}
 	encodedPackets := bytes.Split(data.Bytes(), []byte{0x1e})
 	if n := len(encodedPackets); len(encodedPackets[n-1]) == 0 {
